@@ -115,6 +115,29 @@ def run(ctx):
                     same = False
         ctx.ob("R1", "applied-changes counter incremented exactly where a diff is accepted", ok_cnt and same, "%d push(es) and %d counter increment(s) on the same acceptance arm" % (len(pushes), len(cnt)), where=pd.loc())
         # `end` updated from the accepted diff's range.end
+    # payload completeness: every Diff handed to the interactive processor becomes an entry of the payload (the only
+    # legitimate drop is the overlap rule in the accept loop); a `continue` here would apply fewer edits than announced
+    from .c13 import loop_of
+    from ..query import option_arms
+    n_pc = 0
+    for f in prog.find_fns(r"^<ast_grep::print::interactive_print::InteractiveProcessor<P> as ast_grep::print::PrintProcessor<.*>>::print_(rule_)?diffs$"):
+        n_pc += 1
+        nx = [c for c in f.calls if c.name == "next" and "IntoIter" in c.best and f.in_loop(c.bb)]
+        pushes = [c for c in f.calls if c.name == "push" and "Vec" in c.best]
+        ok = bool(nx) and bool(pushes)
+        detail = "loop or push not found"
+        if ok:
+            arms = option_arms(f, nx[0])
+            body = loop_of(f, nx[0].bb)
+            skipped = False
+            for sb in arms["some"]:
+                # can the loop head be reached again from the Some arm without passing a push?
+                if path_avoiding(f, sb, [p_.bb for p_ in pushes], [nx[0].bb]):
+                    skipped = True
+            ok = not skipped
+            detail = "each iteration over the diffs either pushes an InteractiveDiff or leaves by error" if ok else "an iteration can go back to the loop head without pushing: some announced edits never reach the writer"
+        ctx.ob("R1", "payload completeness in %s" % f.name, ok, detail, where=f.loc())
+    ctx.floor("R1", "interactive diff payload builders", n_pc, 2)
     # the accept loop drops a diff that starts before the end of the last accepted one: the list it receives must be in
     # ascending order. Fix diffs are produced in document order by the scan; whatever is merged into them afterwards
     # (unused-suppression edits) must be followed by a sort on every path.
